@@ -33,6 +33,7 @@ FINDING_CLASSES = {
     "d": ("K13d", "template_binder_spelling_also_free_in_same_template"),
     "f": ("K13f", "pattern_variable_under_extra_ellipsis_depth"),
     "g": ("K13g", "macro_defining_macro"),
+    "j": ("K13j", "template_list_with_two_ellipses"),
     # module cases only (M does not model modules): class predicate computed from the generated module graph
     "i": ("K13i", "module_macro_refers_to_only_in_or_prefix_in_import"),
 }
@@ -243,6 +244,13 @@ def pat_ell_rest(p):
     return any(pat_ell_rest(x) for x in p)
 
 
+def two_ell(t):
+    """some list of the template contains two ellipsis tokens"""
+    if not isinstance(t, list):
+        return False
+    return sum(1 for x in t if x == "...") >= 2 or any(two_ell(x) for x in t)
+
+
 def user_binders(e, out):
     if not isinstance(e, list) or not e:
         return
@@ -270,7 +278,7 @@ def mirror_flags(text):
     try:
         forms = read_all(text.replace(" ;;;--- ", " "))
     except Exception:
-        return set("abcdfg")
+        return set("abcdfgj")
     macros = {}
     body = []
     for f in forms:
@@ -320,6 +328,8 @@ def mirror_flags(text):
                 flags.add("f")
             if "define-syntax" in list(atoms(tmpl)):
                 flags.add("g")
+            if two_ell(tmpl):
+                flags.add("j")
             # b: the template uses another macro (or itself) …
             used = {x for x in atoms(tmpl) if x in macros}
             for u in used:
@@ -370,6 +380,8 @@ class Gen:
             kinds += ["litpass"]
         if self.max_depth >= 3:
             kinds += ["ell3"]
+        if getattr(self, "enable_twoell", False):
+            kinds += ["twoell"]
         for i in range(n):
             name = "m%d" % i
             kind = rng.choice(kinds)
@@ -396,6 +408,12 @@ class Gen:
             elif kind == "ell3":
                 defs.append("(define-syntax %s (syntax-rules () [(_ (k (w v ...) ...) ...) (list (list k (list w (list v ...)) ...) ...)]))" % name)
                 macros[name] = dict(arity=-3, kind=kind)
+            elif kind == "twoell":
+                # two (or three) ellipses in ONE list of the template, with and without forms between them
+                mid = rng.choice(["", "0 ", "(%s a ...) " % F])
+                third = rng.choice(["", " a ..."])
+                defs.append("(define-syntax %s (syntax-rules () [(_ (a ...) (b ...)) (%s a ... %sb ...%s)]))" % (name, F, mid, third))
+                macros[name] = dict(arity=-5, kind=kind)
             elif kind == "lit":
                 L = rng.choice(["then", "=>", "else"])
                 defs.append("(define-syntax %s (syntax-rules (%s) [(_ c %s a) (if c a 'no)] [(_ c x a) 'nolit]))" % (name, L, L))
@@ -468,6 +486,10 @@ class Gen:
                     inner.append("(%s %s)" % (self.expr(macros, scope, 0), " ".join(self.expr(macros, scope, 0) for _ in range(rng.randint(0, 2)))))
                 groups.append("(%s %s)" % (self.expr(macros, scope, 0), " ".join(inner)))
             return "(%s %s)" % (name, " ".join(groups))
+        if k == "twoell":
+            g1 = " ".join(self.expr(macros, scope, depth - 1) for _ in range(rng.randint(0, 3)))
+            g2 = " ".join(self.expr(macros, scope, depth - 1) for _ in range(rng.randint(0, 3)))
+            return "(%s (%s) (%s))" % (name, g1, g2)
         if k == "wildell":
             groups = ["(%s %s)" % (self.expr(macros, scope, 0), self.expr(macros, scope, depth - 1)) for _ in range(rng.randint(0, 3))]
             return "(%s %s)" % (name, " ".join(groups))
@@ -810,14 +832,33 @@ def harness_bin():
     return os.environ.get("C13_HARNESS_BIN") or C.bin_path("c13")
 
 
-def run_batch(ctx, st, kind, texts, known, label, moddir=None):
-    if not texts:
-        return
+def batch_io(job):
+    """run the real code and the driver on one chunk (called from worker threads: only subprocesses here)"""
+    kind, texts, label, moddir = job
     inp = "\n".join(texts) + "\n"
     env = {"C13_MODDIR": moddir} if moddir else None
     hmode, dmode = ("prog", "prog") if kind == "prog" else ("unit", "match")
-    rrc, rout, rerr = C.run_bin([harness_bin(), hmode], inp, timeout=900, env=env)
-    drc, dout, derr = C.run_bin([C.driver_path("c13driver"), dmode], inp, timeout=900)
+    both = C.pool_map(lambda a: C.run_bin(a[0], inp, timeout=900, env=a[1]),
+                      [([harness_bin(), hmode], env), ([C.driver_path("c13driver"), dmode], None)], workers=2)
+    return both[0] + both[1]
+
+
+def run_batches(ctx, st, jobs, known):
+    """chunks run concurrently (one harness + one driver process per chunk), decided in order"""
+    jobs = [j for j in jobs if j[1]]
+    # the harness in program mode is itself a 16-thread supervisor (one child engine per 8 programs): two program
+    # chunks at a time; the unit mode and the driver are single-threaded: half the cores
+    for kinds, workers in ((("prog",), 2), (("unit",), max(2, C.NCPU // 2))):
+        sel = [j for j in jobs if j[0] in kinds]
+        results = C.pool_map(batch_io, [(k, t, l, None) for (k, t, l) in sel], workers=workers)
+        for (kind, texts, label), io in zip(sel, results):
+            run_batch(ctx, st, kind, texts, known, label, io=io)
+
+
+def run_batch(ctx, st, kind, texts, known, label, moddir=None, io=None):
+    if not texts:
+        return
+    rrc, rout, rerr, drc, dout, derr = io if io is not None else batch_io((kind, texts, label, moddir))
     rl, dl = rout.splitlines(), dout.splitlines()
     if len(rl) != len(texts) or len(dl) != len(texts):
         ctx.violation("C13-%s-crash.txt" % label, "harness rc=%d lines=%d, driver rc=%d lines=%d, expected %d\n%s\n%s\n"
@@ -923,6 +964,7 @@ def run(ctx):
                         "checker_cmd": "lake build SteelVerif.C13.Props", "trusted_base": C.TRUSTED_BASE}
         return ctx.finish()
 
+    ctx.log("proved + built")
     rng = random.Random(ctx.seed)
     progs, units = load_corpus()
     run_batch(ctx, st, "prog", progs, known, "corpus")
@@ -957,6 +999,7 @@ def run(ctx):
             ctx.violation("C13-module-%s.txt" % label,
                           "# macro imported from a generated module (chain C -> B -> user): real engine != specification\nmodprog %s\n# flattened for S: %s\n# real = %s\n# S = %s\n# class = %s\n" % (m, f, r, dd.get("valS", ""), cls or "G"))
 
+    ctx.log("corpus + module streams done")
     # hypothesis of the hygiene theorems: the reader never produces an identifier beginning with `##`
     hp = hash_prefix_programs(rng, 60 if ctx.quick() else 600)
     hrc, hout, herr = C.run_bin([harness_bin(), "prog"], "\n".join(hp) + "\n", timeout=300)
@@ -973,18 +1016,29 @@ def run(ctx):
                               "# the real reader/engine accepted (or crashed on) a program with an identifier that begins with the mangling prefix ##: the hypothesis noHashList of introduced_binders_fresh / user_forms_not_captured does not hold for source text\nprog %s\n# real = %s\n" % (t, r))
 
     quick = ctx.quick()
-    nprog = 400 if quick else 20000
-    nunit = 3000 if quick else 60000
+    nprog = 400 if quick else 12000
+    nunit = 3000 if quick else 40000
     g = Gen(rng, 3 if quick else 6, 2 if quick else 3, not quick)
+    # templates with two ellipses in one list (class j): generated once K13j is listed as an open finding
+    # (until then every such program is a VIOLATION by the protocol; the witness is findings/C13-K13j.txt)
+    g.enable_twoell = "K13j" in known
+    if not g.enable_twoell:
+        ctx.notes.append("proposed finding K13j (template_list_with_two_ellipses, findings/C13-K13j.txt) is not listed in KNOWN_FINDINGS.txt: the generator kind `twoell` is switched off")
     streams = [("main", 0.45), ("a", 0.12), ("b", 0.15), ("c", 0.08), ("e", 0.05), ("mixed", 0.15)]
+    ctx.log("## stream done")
+    jobs = []
+    pchunk, uchunk = (200, 400) if quick else (1000, 2000)
     for name, frac in streams:
         texts = [g.program(name) for _ in range(int(nprog * frac))]
-        for i in range(0, len(texts), 2000):
-            run_batch(ctx, st, "prog", texts[i:i + 2000], known, "gen-" + name)
+        for i in range(0, len(texts), pchunk):
+            jobs.append(("prog", texts[i:i + pchunk], "gen-" + name))
     ug = UnitGen(rng, 2 if quick else 3)
     utexts = ["%s\t%s" % ug.case() for _ in range(nunit)]
-    for i in range(0, len(utexts), 3000):
-        run_batch(ctx, st, "unit", utexts[i:i + 3000], known, "gen-unit")
+    for i in range(0, len(utexts), uchunk):
+        jobs.append(("unit", utexts[i:i + uchunk], "gen-unit"))
+    ctx.log("generated %d chunks" % len(jobs))
+    run_batches(ctx, st, jobs, known)
+    ctx.log("generated streams done")
 
     for kid in known:
         if kid not in st.known_hits:
